@@ -148,6 +148,57 @@ def run(ctx):
                     res.find(key, f.loc(s["sp"]), "%s mutates store `%s` of a Program (%s) without updating `used_qubits` (or rebuilding it) on every path to its return" % (f.path, store, use or how), "add an instruction mentioning a new qubit through this function: get_used_qubits() misses it and the program is != an equal-content program")
     res.count("store_mutation_sites", nmut, floor=10)
 
+    # ---- R4: a function that re-assigns the cache wholesale must derive it from every qubit-bearing store on every path
+    nre = 0
+    for f in db.fns:
+        if f.is_derived() or f.impl_self_path() != PROGRAM:
+            continue
+        whole = []
+        for i, j, s in f.stmts():
+            if s["k"] == "assign" and s["p"]["l"] == 1:
+                prs = [pr for pr in s["p"]["pr"] if isinstance(pr, dict) and "n" in pr]
+                if len(prs) == 1 and prs[0].get("o") == PROGRAM and prs[0]["n"] == CACHE:
+                    whole.append((i, s))
+        if not whole:
+            continue
+        nre += 1
+        # cache-writing sites of f and the stores whose content flows into the written value
+        from qv.engine import fn_expr_rvalue, walk_expr
+
+        def stores_in(e):
+            out = set()
+
+            def v(n):
+                if n[0] == "field" and n[1][0] == "param" and n[1][1] == 1:
+                    out.add(n[2])
+                if n[0] == "call" and n[2]:
+                    hs = db.by_path.get(n[1], [])
+                    a0 = n[2][0]
+                    if len(hs) == 1 and a0[0] == "param" and a0[1] == 1:
+                        for pth in k2.deep_read_paths(db, hs[0], 1, 2):
+                            if pth:
+                                out.add(pth[0])
+
+            walk_expr(e, v)
+            return out
+
+        writes = []  # (block, stores)
+        for i, s_ in whole:
+            writes.append((i, stores_in(fn_expr_rvalue(f, s_["rv"]))))
+        for bb, t, c in f.calls():
+            if c and c.get("name") in ("extend", "insert", "union", "append") and len(t["args"]) >= 2:
+                recv = fn_expr_operand(f, t["args"][0])
+                if CACHE in c09.self_fields(recv):
+                    writes.append((bb, stores_in(fn_expr_operand(f, t["args"][1]))))
+        for store in sorted(bearing):
+            blocks = {bb for bb, sts in writes if store in sts}
+            key = "R4|rebuild-covers|%s|%s" % (f.path, store)
+            ok = bool(blocks) and f.all_paths_pass(0, blocks)
+            res.site(key, True, {"fn": f.path, "store": store, "read_in_blocks": sorted(blocks), "on_all_paths": ok, "verdict": "ok" if ok else "VIOLATION"})
+            if not ok:
+                res.find(key, f.loc(), "%s re-assigns the used-qubit cache but reads store `%s` %s: after it the cache can miss qubits mentioned only there" % (f.path, store, "only on some paths" if blocks else "nowhere"), "a program whose only mention of a qubit is in `%s`, then an operation that rebuilds the cache (resolve_placeholders / expand_defgate_sequences)" % store)
+    res.count("cache_reassigning_functions", nre, floor=1)
+
     # ---- R2: struct literals
     nlit = 0
     adt = db.adts.get(PROGRAM)
